@@ -24,6 +24,18 @@ Families
                        ancestor + descendant), instances exactly ON every bound.
 ``cp-chains``          chains of three and four constrained primitives in EVERY declaration order (descendant first),
                        used as property, list item, optional property.
+``model-type``         the ``required`` / ``modelType`` part of every definition shape: hierarchies where ``with_model_type`` is
+                       set on the class itself while the parent / both parents / parent and grand-parent LACK it (legal when
+                       those are never a property type), inherited from the parent, from the grand-parent, from one of two
+                       parents, set on every level, set on a concrete parent, on a stand-alone class, explicitly False, on
+                       none; abstract parents used as a property type (``_choice``) or not; documents of every concrete
+                       class at the root and nested (property, list item, optional).  ``model-type-concrete-parent`` is the
+                       one shape the generator refuses (concrete parent without the setting).
+``zero-bounds-<k>``    boundary values of every bound: ``len`` bounds 0 and 1 as lower and upper bound, ``min == max`` (0, 1),
+                       every spelling (``== 0``, ``<= 0``, ``< 1``, ``0 >= len``, ``>= 1``, ``> 0``, ``< 2``), for strings, byte
+                       arrays and lists (of strings, constrained primitives, classes), on own properties, optional (guarded)
+                       ones, constrained primitives (and chains tightening to 0), inherited unchanged, tightened by a
+                       descendant / a grand-child (from unbounded and from a looser bound); instances exactly ON the bound.
 ``class-chains``       constraints arriving from the own class and from ancestors at distance 1-3 (the front end demands
                        ancestors before descendants for classes; the holder and the constrained primitives are declared
                        first / descendant-first in the second variant).
@@ -445,6 +457,243 @@ def class_chains_family() -> Any:
     return out
 
 
+# --------------------------------------------------------------------------- where ``modelType`` is required
+
+
+def model_type_family() -> List[Tuple[str, Any]]:
+    """Hierarchies over (own setting) x (setting of the parents / grand-parents) x (abstract / concrete parent) x (used as a
+    property type or not).  A class lacking the setting with concrete descendants may not be a property type (front end)
+    and may not be concrete (generator); everything else is in the main model."""
+    name = Prop("name", Prim("str"))
+
+    def size() -> Any:
+        return Prop("size", Prim("int"))
+
+    classes = [
+        # A: the leaf sets it, the abstract parent lacks it
+        Class("A_thing", abstract=True, props=[name], description="Lack the setting."),
+        Class("A_leaf", bases=["A_thing"], with_model_type=True, props=[size()], description="Set it on the leaf."),
+        # B: the leaf sets it, parent and grand-parent lack it
+        Class("B_base", abstract=True, props=[name], description="Lack the setting."),
+        Class("B_mid", abstract=True, bases=["B_base"], props=[Prop("remark", OptionalOf(Prim("str")))], description="Lack it as well."),
+        Class("B_leaf", bases=["B_mid"], with_model_type=True, props=[size()], description="Set it on the leaf."),
+        # C: an abstract middle class sets it (its parent lacks it); leaves inherit; the middle one is a property type
+        Class("C_base", abstract=True, props=[name], description="Lack the setting."),
+        Class("C_mid", abstract=True, bases=["C_base"], with_model_type=True, props=[Prop("level", Prim("int"))], description="Set it in the middle."),
+        Class("C_leaf", bases=["C_mid"], props=[size()], description="Inherit it."),
+        Class("C_other", bases=["C_mid"], description="Inherit it, without own properties."),
+        # D: from the grand-parent
+        Class("D_root", abstract=True, with_model_type=True, props=[name], description="Set it at the root."),
+        Class("D_mid", abstract=True, bases=["D_root"], description="Inherit it."),
+        Class("D_leaf", bases=["D_mid"], props=[size()], description="Inherit it from the grand-parent."),
+        Class("D_twin", bases=["D_mid"], props=[size()], description="Inherit it from the grand-parent as well."),
+        # E: two parents, one with, one without (both orders); E2: both lack it, the child sets it
+        Class("E_left", abstract=True, props=[Prop("a", Prim("str"))], description="Lack the setting."),
+        Class("E_right", abstract=True, with_model_type=True, props=[Prop("b", Prim("str"))], description="Set it."),
+        Class("E_both", bases=["E_left", "E_right"], props=[Prop("c", Prim("int"))], description="Inherit it from the second parent."),
+        Class("E_both_rev", bases=["E_right", "E_left"], description="Inherit it from the first parent."),
+        Class("E2_left", abstract=True, props=[Prop("a", Prim("str"))], description="Lack the setting."),
+        Class("E2_right", abstract=True, props=[Prop("b", Prim("str"))], description="Lack the setting."),
+        Class("E2_both", bases=["E2_left", "E2_right"], with_model_type=True, description="Set it below two parents lacking it."),
+        # F: a concrete parent with the setting
+        Class("F_parent", with_model_type=True, props=[name], description="Be concrete and set it."),
+        Class("F_child", bases=["F_parent"], props=[size()], description="Inherit it from a concrete parent."),
+        # G: no parents
+        Class("G_lone", with_model_type=True, props=[size()], description="Stand alone with the setting."),
+        Class("G_plain", props=[size()], description="Stand alone without the setting."),
+        Class("G_false", with_model_type=False, props=[size()], description="Stand alone, explicitly without."),
+        # H: nowhere
+        Class("H_base", abstract=True, props=[name], description="Lack the setting."),
+        Class("H_leaf", bases=["H_base"], props=[size()], description="Lack it as well."),
+        # L: set on every level
+        Class("L_root", abstract=True, with_model_type=True, props=[name], description="Set it."),
+        Class("L_leaf", bases=["L_root"], with_model_type=True, props=[size()], description="Set it again."),
+        # J: two leaves set it below a constrained parent lacking it
+        Class("J_base", abstract=True, props=[name], invariants=[inv("name at least 1", "len(self.name) >= 1")], description="Lack the setting."),
+        Class("J_one", bases=["J_base"], with_model_type=True, description="Set it."),
+        Class("J_two", bases=["J_base"], with_model_type=True, props=[size()],
+              invariants=[inv("name at most 3", "len(self.name) <= 3")], description="Set it and tighten."),
+        Class("Holder", description="Hold one of each.", props=[
+            Prop("a_leaf", Ref("A_leaf")), Prop("b_leaf", OptionalOf(Ref("B_leaf"))), Prop("c_mids", ListOf(Ref("C_mid"))),
+            Prop("c_leaf", Ref("C_leaf")), Prop("d_roots", ListOf(Ref("D_root"))), Prop("d_mid", OptionalOf(Ref("D_mid"))),
+            Prop("e_rights", ListOf(Ref("E_right"))), Prop("e_both", Ref("E_both")), Prop("e2_both", Ref("E2_both")),
+            Prop("f_parents", ListOf(Ref("F_parent"))), Prop("f_child", Ref("F_child")), Prop("g_lone", Ref("G_lone")),
+            Prop("g_plain", Ref("G_plain")), Prop("g_false", Ref("G_false")), Prop("h_leaf", Ref("H_leaf")),
+            Prop("i_roots", ListOf(Ref("L_root"))), Prop("j_one", Ref("J_one")), Prop("j_twos", ListOf(Ref("J_two")))]),
+    ]
+    values: Dict[str, Dict[str, Any]] = {
+        "A_leaf": {"name": "x", "size": 1}, "B_leaf": {"name": "x", "remark": None, "size": 2}, "C_leaf": {"name": "x", "level": 1, "size": 3},
+        "C_other": {"name": "y", "level": 2}, "D_leaf": {"name": "x", "size": 4}, "D_twin": {"name": "y", "size": 5},
+        "E_both": {"a": "p", "b": "q", "c": 6}, "E_both_rev": {"a": "p", "b": "q"}, "E2_both": {"a": "p", "b": "q"},
+        "F_parent": {"name": "x"}, "F_child": {"name": "y", "size": 7}, "G_lone": {"size": 8}, "G_plain": {"size": 9},
+        "G_false": {"size": 10}, "H_leaf": {"name": "x", "size": 11}, "L_leaf": {"name": "x", "size": 12},
+        "J_one": {"name": "abcd"}, "J_two": {"name": "abc", "size": 13},
+    }
+
+    def obj(cname: str) -> Dict[str, Any]:
+        return dict(values[cname], __class__=cname)
+
+    specs = [Spec(cname, v, mutate=True) for cname, v in values.items()]
+    specs.append(Spec("Holder", {
+        "a_leaf": obj("A_leaf"), "b_leaf": obj("B_leaf"), "c_mids": [obj("C_leaf"), obj("C_other")], "c_leaf": obj("C_leaf"),
+        "d_roots": [obj("D_twin"), obj("D_leaf")], "d_mid": obj("D_leaf"), "e_rights": [obj("E_both"), obj("E_both_rev")],
+        "e_both": obj("E_both"), "e2_both": obj("E2_both"), "f_parents": [obj("F_parent"), obj("F_child")], "f_child": obj("F_child"),
+        "g_lone": obj("G_lone"), "g_plain": obj("G_plain"), "g_false": obj("G_false"), "h_leaf": obj("H_leaf"),
+        "i_roots": [obj("L_leaf")], "j_one": obj("J_one"), "j_twos": [obj("J_two")]}, mutate=True))
+    m = MM(classes=classes, version="V1", xml_namespace="urn:aasv:modeltype")
+    m._explicit = specs  # type: ignore[attr-defined]
+    # the shape the GENERATOR refuses: a concrete parent lacking the setting with a concrete child (setting it or not)
+    refused = MM(classes=[
+        Class("K_parent", props=[name], description="Be concrete and lack the setting."),
+        Class("K_child", bases=["K_parent"], with_model_type=True, props=[size()], description="Set it."),
+        Class("Keeper", props=[Prop("child", Ref("K_child"))], description="Keep the child only."),
+    ], version="V1", xml_namespace="urn:aasv:modeltype")
+    refused._explicit = [Spec("K_child", {"name": "x", "size": 1}, mutate=True)]  # type: ignore[attr-defined]
+    return [("model-type", m), ("model-type-concrete-parent", refused)]
+
+
+# --------------------------------------------------------------------------- bounds of exactly 0 and 1
+
+#: (suffix, constraint on ``len(X)`` with ``{L}`` = ``len(X)``, a value length ON the bound)
+ZERO_ONE_BOUNDS = [
+    ("eq0", "{L} == 0", 0), ("le0", "{L} <= 0", 0), ("lt1", "{L} < 1", 0), ("ge0le0", "0 >= {L}", 0),
+    ("eq1", "{L} == 1", 1), ("le1", "{L} <= 1", 1), ("lt2", "2 > {L}", 1), ("ge1", "{L} >= 1", 1), ("gt0", "{L} > 0", 1),
+    ("ge0", "{L} >= 0", 0), ("eq2", "{L} == 2", 2),
+]
+
+
+def _text(n: int) -> str:
+    return "abcdefgh"[:n]
+
+
+def zero_bounds_families() -> List[Tuple[str, Any]]:
+    out: List[Tuple[str, Any]] = []
+
+    # ---- 0: own properties (required and optional/guarded) of every kind; one class per kind keeps the classes small
+    classes: List[Any] = [Class("Item", props=[Prop("label", Prim("str"))], description="Be an item.")]
+    specs: List[Spec] = []
+    kinds = [
+        ("Texts", Prim("str"), _text),
+        ("Blobs", Prim("bytes"), lambda n: bytes(range(n))),
+        ("Lists", ListOf(Prim("str")), lambda n: ["x"] * n),
+        ("Refs", ListOf(Ref("Item")), lambda n: [{"__class__": "Item", "label": "i"}] * n),
+    ]
+    for cname, t, make in kinds:
+        props, invs, vals = [], [], {}
+        for suffix, k, n in ZERO_ONE_BOUNDS:
+            p = f"v_{suffix}"
+            props.append(Prop(p, t))
+            invs.append(inv(f"{p}: {k}", k.format(L=f"len(self.{p})")))
+            vals[p] = make(n)
+        for j, (suffix, k, n) in enumerate(ZERO_ONE_BOUNDS[:6]):
+            p = f"o_{suffix}"
+            props.append(Prop(p, OptionalOf(t)))
+            guard = f"self.{p} is None or " if j % 2 == 0 else f"not (self.{p} is not None) or "
+            invs.append(inv(f"{p}: guarded {k}", guard + k.format(L=f"len(self.{p})")))
+            vals[p] = make(n)
+        if cname == "Refs":
+            props.append(Prop("spare", Ref("Item")))
+            vals["spare"] = {"__class__": "Item", "label": "spare"}
+        classes.append(Class(cname, props=props, invariants=invs, description=f"Bound {cname.lower()} by 0 and 1."))
+        specs.append(Spec(cname, vals, mutate=True))
+        specs.append(Spec(cname, {p: (None if p.startswith("o_") else v) for p, v in vals.items()}, mutate=False))
+    m = MM(classes=classes, version="V1", xml_namespace="urn:aasv:zero")
+    m._explicit = specs  # type: ignore[attr-defined]
+    out.append(("zero-bounds-own", m))
+
+    # ---- 1: constrained primitives (strings, byte arrays), chains tightening down to 0, as property / item / optional
+    cps: List[Any] = []
+    classes = []
+    specs = []
+    for base, make in (("str", _text), ("bytes", lambda n: bytes(range(n)))):
+        props, vals = [], {}
+        for suffix, k, n in ZERO_ONE_BOUNDS:
+            cp = f"{base.capitalize()}_{suffix}"
+            cps.append(ConstrainedPrimitive(cp, base, invariants=[inv(k, k.format(L="len(self)"))]))
+            props += [Prop(f"v_{suffix}", Ref(cp)), Prop(f"o_{suffix}", OptionalOf(Ref(cp))), Prop(f"l_{suffix}", ListOf(Ref(cp)))]
+            vals.update({f"v_{suffix}": make(n), f"o_{suffix}": make(n), f"l_{suffix}": [make(n)]})
+        # chains: at most 3 -> at most 1 -> exactly 0 ; at least 0 -> at least 1 -> exactly 1
+        cps += [ConstrainedPrimitive(f"{base.capitalize()}_upto3", base, invariants=[inv("at most 3", "len(self) <= 3")]),
+                ConstrainedPrimitive(f"{base.capitalize()}_upto1", base, bases=[f"{base.capitalize()}_upto3"], invariants=[inv("at most 1", "len(self) <= 1")]),
+                ConstrainedPrimitive(f"{base.capitalize()}_none", base, bases=[f"{base.capitalize()}_upto1"], invariants=[inv("empty", "len(self) < 1")]),
+                ConstrainedPrimitive(f"{base.capitalize()}_some", base, bases=[f"{base.capitalize()}_upto3"], invariants=[inv("not empty", "len(self) >= 1")]),
+                ConstrainedPrimitive(f"{base.capitalize()}_single", base, bases=[f"{base.capitalize()}_some", f"{base.capitalize()}_upto1"])]
+        for suffix, n in (("upto1", 1), ("none", 0), ("some", 1), ("single", 1)):
+            props += [Prop(f"c_{suffix}", Ref(f"{base.capitalize()}_{suffix}")), Prop(f"cl_{suffix}", ListOf(Ref(f"{base.capitalize()}_{suffix}")))]
+            vals.update({f"c_{suffix}": make(n), f"cl_{suffix}": [make(n), make(n)]})
+        cname = f"Holder_{base}"
+        classes.append(Class(cname, props=props, description=f"Hold the constrained {base} values.",
+                             invariants=[inv("further bounded by the class", "len(self.c_upto1) == 0"),
+                                         inv("the list of them is empty", "len(self.cl_upto1) <= 0")]))
+        vals.update({"c_upto1": make(0), "cl_upto1": []})
+        specs.append(Spec(cname, vals, mutate=True))
+        specs.append(Spec(cname, {p: (None if p.startswith("o_") else [] if p.startswith("l_") else v) for p, v in vals.items()}, mutate=False))
+    m = MM(classes=classes, constrained_primitives=cps, version="V1", xml_namespace="urn:aasv:zero")
+    m._explicit = specs  # type: ignore[attr-defined]
+    out.append(("zero-bounds-constrained", m))
+
+    # ---- 2: inherited positions: unchanged, tightened by the child / the grand-child, from unbounded / from a looser bound
+    cps = [ConstrainedPrimitive("Tag", "str", invariants=[inv("at most 1", "len(self) <= 1")])]
+    node_props = [Prop("children", ListOf(Prim("str"))), Prop("label", Prim("str")), Prop("blob", Prim("bytes")),
+                  Prop("tag", Ref("Tag")), Prop("kids", ListOf(Ref("Item"))), Prop("memo", OptionalOf(Prim("str")))]
+
+    def bounds(expr: str, memo: bool = True) -> List[Any]:
+        ps = ["children", "label", "blob", "kids"] + (["tag"] if "<" in expr or "== 0" in expr else [])
+        res = [inv(f"{p}: {expr}", expr.format(L=f"len(self.{p})")) for p in ps]
+        if memo:
+            res.append(inv(f"memo: {expr}", "self.memo is None or " + expr.format(L="len(self.memo)")))
+        return res
+
+    classes = [
+        Class("Item", props=[Prop("label", Prim("str"))], description="Be an item."),
+        # a: the root is unbounded
+        Class("Node_a", abstract=True, with_model_type=True, props=node_props, description="Leave everything unbounded."),
+        Class("Inner_a", bases=["Node_a"], invariants=bounds("{L} <= 2"), description="Allow two."),
+        Class("Leaf_a", bases=["Node_a"], invariants=bounds("{L} == 0"), description="Allow none."),
+        Class("Single_a", bases=["Node_a"], invariants=bounds("{L} == 1"), description="Demand exactly one."),
+        Class("Some_a", bases=["Node_a"], invariants=bounds("{L} >= 1"), description="Demand at least one."),
+        # b: the root has loose bounds, tightened twice
+        Class("Node_b", abstract=True, with_model_type=True, props=node_props, invariants=bounds("{L} <= 3"), description="Allow three."),
+        Class("Mid_b", abstract=True, bases=["Node_b"], invariants=bounds("{L} <= 1"), description="Allow one."),
+        Class("One_b", bases=["Mid_b"], invariants=bounds("1 <= {L}"), description="Demand exactly one by adding the other bound."),
+        Class("Leaf_b", bases=["Mid_b"], invariants=bounds("{L} < 1"), description="Allow none."),
+        Class("Low_b", bases=["Node_b"], invariants=bounds("{L} > 0"), description="Demand one to three."),
+        # c: the root is bounded by 0 / 1 already, the leaves inherit it unchanged
+        Class("Node_c", abstract=True, with_model_type=True, props=node_props, invariants=bounds("{L} <= 0"), description="Allow none."),
+        Class("Leaf_c", bases=["Node_c"], description="Inherit it unchanged."),
+        Class("Mid_c", abstract=True, bases=["Node_c"], description="Inherit it unchanged."),
+        Class("Deep_c", bases=["Mid_c"], props=[Prop("extra", Prim("int"))], description="Inherit it over two levels."),
+        Class("Node_d", abstract=True, with_model_type=True, props=node_props, invariants=bounds("{L} == 1"), description="Demand exactly one."),
+        Class("Leaf_d", bases=["Node_d"], description="Inherit it unchanged."),
+        Class("Tree", props=[Prop("a_nodes", ListOf(Ref("Node_a"))), Prop("b_nodes", ListOf(Ref("Node_b"))), Prop("c_node", Ref("Node_c")),
+                             Prop("d_node", OptionalOf(Ref("Node_d"))), Prop("spare", Ref("Item"))], description="Hold the nodes."),
+    ]
+
+    def node(cname: str, n: int, memo: bool = True, **more: Any) -> Dict[str, Any]:
+        return dict({"children": ["c"] * n, "label": _text(n), "blob": bytes(range(n)), "tag": _text(min(n, 1)),
+                     "kids": [{"__class__": "Item", "label": "k"}] * n, "memo": _text(n) if memo else None}, **more)
+
+    on_bound = {"Inner_a": [2, 0], "Leaf_a": [0], "Single_a": [1], "Some_a": [1, 3], "One_b": [1], "Leaf_b": [0], "Low_b": [1, 3],
+                "Leaf_c": [0], "Deep_c": [0], "Leaf_d": [1]}
+    specs = []
+    for cname, ns in on_bound.items():
+        more = {"extra": 1} if cname == "Deep_c" else {}
+        for i, n in enumerate(ns):
+            specs.append(Spec(cname, node(cname, n, **more), mutate=True))
+        specs.append(Spec(cname, node(cname, ns[0], memo=False, **more), mutate=False))
+
+    def nested(cname: str, n: int) -> Dict[str, Any]:
+        return dict(node(cname, n, **({"extra": 1} if cname == "Deep_c" else {})), __class__=cname)
+
+    specs.append(Spec("Tree", {"a_nodes": [nested("Leaf_a", 0), nested("Single_a", 1), nested("Inner_a", 2)],
+                               "b_nodes": [nested("Leaf_b", 0), nested("One_b", 1)], "c_node": nested("Deep_c", 0),
+                               "d_node": nested("Leaf_d", 1), "spare": {"__class__": "Item", "label": "s"}}, mutate=True))
+    m = MM(classes=classes, constrained_primitives=cps, version="V1", xml_namespace="urn:aasv:zero")
+    m._explicit = specs  # type: ignore[attr-defined]
+    out.append(("zero-bounds-inherited", m))
+    return out
+
+
 # --------------------------------------------------------------------------- all of them
 
 
@@ -457,3 +706,5 @@ def families() -> Iterator[Tuple[str, Any]]:
     yield "cp-chains", cp_chains_family()
     for label, m in class_chains_family():
         yield "class-chains-" + label, m
+    yield from model_type_family()
+    yield from zero_bounds_families()
